@@ -51,13 +51,13 @@ SLOTS.append(("before", "decorator", "dec", "dup"))
 SLOTS.append(("after", "decorator", "dec", "dup#2"))
 
 KINDS = [(k, ev) for k in ("external", "self", "internal") for ev in ("e1", "e2")] + \
-        [("rejected-first", "e1"), ("initial", None)]
+        [("rejected-first", "e1"), ("rejected-twin", "e1"), ("initial", None)]
 ENGINES = ("sync-rtc", "sync-nonrtc", "async-all", "async-first", "async-wrapped")
 
 
 def make_spec(pop, kind, mask):
     """pop: tuple of slot indexes."""
-    dst = "b" if kind in ("external", "rejected-first") else "a"
+    dst = "b" if kind in ("external", "rejected-first", "rejected-twin") else "a"
     if kind == "initial":
         dst = "a"          # the start state: its enter group is the only one that may run
     inl = {g: [] for g in ("validators", "cond", "unless", "before", "on", "after")}
@@ -111,11 +111,14 @@ def make_spec(pop, kind, mask):
               S("b", enter=tuple(st_enter["b"]), exit=tuple(st_exit["b"])),
               S("c"))
     trans = []
-    if kind == "rejected-first":
+    if kind in ("rejected-first", "rejected-twin"):
         # an earlier candidate for the same event that is rejected by its guard and carries
-        # its own actions, none of which may run
-        trans.append(T("a", "c", ("e1",), cond=("never",), before=("rej_b",), on=("rej_o",),
-                       after=("rej_a",)))
+        # its own actions, none of which may run ("twin": it has the very same source, target
+        # and events as the focal transition - two transitions that differ only in guard and
+        # actions)
+        twin = kind == "rejected-twin"
+        trans.append(T("a", "b" if twin else "c", ("e1", "e2") if twin else ("e1",),
+                       cond=("never",), before=("rej_b",), on=("rej_o",), after=("rej_a",)))
         provided += [("sm", "never", ""), ("sm", "rej_b", ""), ("sm", "rej_o", ""),
                      ("sm", "rej_a", "")]
     focal = T("a", dst, ("e1", "e2"), internal=(kind == "internal"),
@@ -160,12 +163,12 @@ def run_scenario(pop, kind, ev, mask):
     if r:
         return r, p
     # come back and fire again: exactly-once must hold the second time too
-    if kind in ("external", "rejected-first"):
+    if kind in ("external", "rejected-first", "rejected-twin"):
         r = p.send("back", dict(VALS), tag="t1")
         if r:
             return r, p
     other = "e2" if ev == "e1" else "e1"
-    if kind == "rejected-first":
+    if kind in ("rejected-first", "rejected-twin"):
         other = "e1"
     r = p.send(other, dict(VALS), tag="t2") or p.check_views()
     return r, p
